@@ -162,6 +162,36 @@ func (v *VerifConcDP) PoolAudit() []uintptr {
 	return out
 }
 
+// PoolLen is the number of packets in the pool channel right now.
+func (v *VerifConcDP) PoolLen() int { return len(v.d.packetPool.pool) }
+
+// PoolAuditWith takes every packet currently in the pool channel out, calls inspect with the
+// buffer addresses while the packets are held out of the pool (nobody can Get them meanwhile),
+// and puts them back.
+func (v *VerifConcDP) PoolAuditWith(inspect func(buffers []uintptr)) {
+	var pkts []*Packet
+	for {
+		select {
+		case p := <-v.d.packetPool.pool:
+			pkts = append(pkts, p)
+			continue
+		default:
+		}
+		break
+	}
+	out := make([]uintptr, len(pkts))
+	for i, p := range pkts {
+		out[i] = uintptr(unsafe.Pointer(p.buffer))
+	}
+	inspect(out)
+	for _, p := range pkts {
+		select {
+		case v.d.packetPool.pool <- p:
+		default:
+		}
+	}
+}
+
 // BufferOf returns the address of the packet buffer that contains the first byte of b, given
 // the address of any one packet buffer (all buffers are slots of one array).
 func (v *VerifConcDP) BufferOf(b []byte, anyBuffer uintptr) uintptr {
